@@ -3,14 +3,16 @@ SPEC = {
     "n": {"quick": 1500, "thorough": 30000},
     "components": {"1": "outcome of the call (proceeds / rejected by a limit check / bad input)",
                    "2": "statements, arguments and transaction brackets received by the server",
-                   "3": "set of batched callers that reached the batch function", "4": "generated case violates the well-formedness hypotheses of the theorems (harness defect)"},
-    "corr_name": "Sql.Model (run, run_batched, run_batched_multi, run_seq) vs sqlgen.DB methods on a fake database/sql driver",
-    "coq_modules": ["Sql.Model", "Sql.ModelCheck"],
+                   "3": "set of batched callers that reached the batch function", "4": "generated case violates the well-formedness hypotheses of the theorems (harness defect)",
+                   "5": "handle produced by a chain of WithShardLimit / WithDynamicLimit / WithPanicOnNoIndex calls (limits kept, calls refused)"},
+    "corr_name": "Sql.Methods (run_call: every exported method of sqlgen.DB by name, derive: chains of With* calls) and Sql.Model (run, run_batched, run_batched_multi, run_seq) vs sqlgen.DB methods on a fake database/sql driver",
+    "coq_modules": ["Sql.Model", "Sql.ModelExact", "Sql.Methods", "Sql.ModelCheck"],
     "harness_timeout": {"quick": 600, "thorough": 3000},
     "search": {"n": 6000, "timeout": 600},
     "trusted_base": [
         "Coq 8.16.1 kernel and vm_compute (no native_compute); Print Assumptions: closed under the global context",
-        "hand-written model coq/theories/Sql/Model.v of sqlgen/db.go, reflect.go, mysql.go, batch.go, tied to the code by the correspondence check only",
+        "hand-written model coq/theories/Sql/Model.v, Methods.v of sqlgen/db.go, reflect.go, mysql.go, batch.go, tied to the code by the correspondence check and by the generated table of DB's exported methods",
+        "tools/gensqlmethods (go/ast extractor of the exported methods of sqlgen.DB and the kind of database/sql call each reaches, by name, into coq/theories/Gen/DbMethods.v; re-run on every check)",
         "Go harness harness/cmd/c12, harness/pkg/sqlh, the fake MySQL server harness/pkg/fakesql (statement parser, three-valued WHERE evaluation), database/sql argument conversion",
         "columns without binary/string/json tags and values that do not implement driver.Valuer (C13 covers those); no time.Time values; floats are multiples of 1/4",
     ],
@@ -29,3 +31,56 @@ SPEC = {
         "technique": "Coq proof over executable model + differential correspondence check (vm_compute) + property oracle on the statements received by a fake SQL driver",
     },
 }
+
+
+def regen_tables():
+    """Re-extract the exported methods of sqlgen.DB of the tree under test into coq/theories/Gen/DbMethods.v
+    (written only when it changed; under the shared Coq lock).  A failure leaves a table the theorem
+    c12_every_exported_method_is_modelled cannot match: the check fails closed."""
+    import os
+    from vlib import common as C
+    tool = os.path.join(C.VERIF, "tools", "gensqlmethods")
+    out = os.path.join(C.COQ, "theories", "Gen", "DbMethods.v")
+    os.makedirs(os.path.join(C.BUILD, "bin"), exist_ok=True)
+    binp = os.path.join(C.BUILD, "bin", "gensqlmethods")
+    with C.Lock("go"):
+        rc, log = C.sh(["go", "build", "-o", binp, "."], cwd=tool, env=C.GOENV, timeout=600)
+    if rc != 0:
+        print("gensqlmethods does not build:\n" + log[-2000:])
+        return False
+    with C.Lock("coq", shared=True):
+        rc, log = C.sh([binp, "-repo", C.REPO, "-out", out], cwd=C.VERIF, timeout=120)
+    if rc != 0:
+        print("gensqlmethods failed:\n" + log[-2000:])
+    return rc == 0
+
+
+def outside_model():
+    """Names of exported methods of sqlgen.DB the model has no case for (or whose kind of database access
+    differs from the model's), for the message of a failed run."""
+    import os, re
+    from vlib import common as C
+    src = os.path.join(C.BUILD, "C12", "outside.v")
+    os.makedirs(os.path.dirname(src), exist_ok=True)
+    open(src, "w").write("From Coq Require Import List String.\nFrom Thunder Require Import Sql.Methods Gen.DbMethods.\nOpen Scope string_scope.\n"
+                         "Definition Outside := Eval vm_compute in (methods_outside db_methods, db_methods_problem).\nPrint Outside.\n")
+    try:
+        rc, out = C.sh(["coqc"] + C.COQ_FLAGS + ["-o", src + "o", src], timeout=300)
+    except Exception:
+        return None
+    if rc != 0:
+        return None
+    m = re.search(r"Outside\s*=\s*(.*?)\s*:", out, flags=re.S)
+    return " ".join(m.group(1).split()) if m else None
+
+
+def run(tier, seed, replay=None):
+    from vlib import runner
+    regen_tables()
+    rc = runner.run(SPEC, tier, seed, replay)
+    if rc != 0:
+        o = outside_model()
+        if o and not (o.startswith("([], false)") or o.startswith("(nil, false)")):
+            print("METHOD-OUTSIDE-MODEL: exported methods of sqlgen.DB without a case in Sql/Methods.v (or with another kind of "
+                  "database access than the model's), extraction problem flag: " + o)
+    return rc
